@@ -1040,6 +1040,20 @@ class C07:
             b = gen_batch(rng, it, labels, n, width=width, pos=cfg['pos_label'])
             ctx.count('combo', f'{kind}/{it}/{av}')
             yield {'t': 'run', 'kind': kind, 'cfg': cfg, 'shards': [[b]], 'trees': [0]}
+    # (2b) top-k against the textbook "class in the first k predictions": ragged rankings, k beyond the length of
+    #      some / all rankings, repeated labels, empty rankings, permuted vocabulary (C07_classification_topk_counts_*)
+    for kind, it, av in [(k, i, a) for k in ('topk', 'wrapper') for i in ('multiclass-multioutput', 'multiclass')
+                         for a in ('micro', 'macro')]:
+      for vmode in ('ordered', 'permuted', 'superset'):
+        for _ in range(reps):
+          labels = INT_LABELS[:rng.choice([2, 3, 4, 5])]
+          ks = rng.choice([[1, 3], [2, 4], [4], [1, 2, 3, 4, 5], [3], [2, 5], [5, 6]])
+          cfg = dict(metrics=list(DERIVED) + ['confusion_matrix'], single=False, pos_label=1, input_type=it,
+                     average=av, vocab=gen_vocab(rng, labels, vmode), k_list=ks)
+          b = gen_ranked_batch(rng, it, labels, rng.choice([0, 1, 2, 3, 5]), maxlen=rng.choice([2, 3, 4, 6]),
+                               dup=rng.random() < .4)
+          C01._count_topk_arms(ctx, cfg, [[b]])
+          yield {'t': 'run', 'kind': kind, 'cfg': cfg, 'shards': [[b]], 'trees': [0]}
     # single-metric form and subsets of metrics
     for _ in range(40 if quick else 600):
       kind, it, av = rng.choice(valid_combos())
@@ -1537,7 +1551,12 @@ class C01:
 
   @staticmethod
   def shrink(case, fails):
-    return shrink_run(case, fails)
+    # keep the shrunk case outside the known-finding input classes (a tn-free failure without a vocabulary must
+    # not be shrunk into a plain tn difference, which is the open finding F8)
+    def still_new(c):
+      w = fails(c)
+      return bool(w) and finding_class(c, w if isinstance(w, str) else None) is None
+    return shrink_run(case, still_new)
 
   @staticmethod
   def neighbours(case, rng):
